@@ -177,6 +177,34 @@ pub fn norm_negzero(m: &DynMsg) -> DynMsg {
     out
 }
 
+/// the merge SPECIFICATION (independent of any decoder): last wins, append, insert-replace, oneof replace
+/// (same message member merges), messages field-wise
+pub fn merge_spec(a: &DynMsg, b: &DynMsg) -> DynMsg {
+    fn e(s: &Arc<Schema>, ty: &FTy, bt: bool, x: Option<&EVal>, y: &EVal) -> EVal {
+        match (ty, y) {
+            (FTy::Msg(_), EVal::Msg(ym)) => match x { Some(EVal::Msg(xm)) => EVal::Msg(merge_spec(xm, ym)), _ => { let d = default_e(s, ty, bt); if let EVal::Msg(dm) = &d { EVal::Msg(merge_spec(dm, ym)) } else { y.clone() } } },
+            _ => y.clone(),
+        }
+    }
+    let s = a.schema.clone();
+    let mut out = a.clone();
+    for ((d, x), y) in s.decls(a.idx).iter().zip(out.slots.iter_mut()).zip(&b.slots) {
+        let nx = match (d, &*x, y) {
+            (Decl::Single { ty, .. }, Slot::Req(xv), Slot::Req(yv)) => Slot::Req(e(&s, ty, a.bt, Some(xv), yv)),
+            (Decl::Single { ty, .. }, xs, Slot::Some(yv)) => Slot::Some(e(&s, ty, a.bt, if let Slot::Some(xv) = xs { Some(xv) } else { None }, yv)),
+            (Decl::Rep { .. }, Slot::Rep(xs), Slot::Rep(ys)) => { let mut v = xs.clone(); v.extend(ys.iter().cloned()); Slot::Rep(v) }
+            (Decl::Map { .. }, Slot::Map(xm), Slot::Map(ym)) => { let mut m = xm.clone(); for (k, v) in ym.sorted() { m.insert(k.clone(), v.clone()); } Slot::Map(m) }
+            (Decl::Oneof(vs), xs, Slot::One(t, yv)) => {
+                let ty = &vs.iter().find(|v| v.0 == *t).expect("variant").1;
+                Slot::One(*t, e(&s, ty, a.bt, match xs { Slot::One(u, xv) if u == t => Some(xv), _ => None }, yv))
+            }
+            (_, xs, _) => xs.clone(),
+        };
+        *x = nx;
+    }
+    out
+}
+
 // ---------------------------------------------------------------- sexp form of values (maps sorted by key)
 pub fn e_sexp(v: &EVal) -> String { match v { EVal::S(x) => x.sexp(), EVal::Msg(m) => m_sexp(m) } }
 pub fn m_sexp(m: &DynMsg) -> String { format!("(msg{})", m.slots.iter().map(|s| format!(" {}", s_sexp(s))).collect::<String>()) }
